@@ -253,7 +253,9 @@ UINT_EDGES = [0, 1, 0xFF, 0x100, 0xFFFF, 0x10000, 0xFFFFFFFF, 0x100000000, 2**64
 TEXTS = ['', 'a', 'hello', 'Σπυρίδων', 'naïve', '日本語', '😀', 'x' * 252, 'y' * 253, 'é' * 130,
          # legal text that is not in Unicode normal form (NFC/NFKC would change it), case variants, whitespace, NUL, BOM
          'e\u0301cole', 'A\u030angstro\u0308m', '\u2126', '\u212b', '\ufb01n', '\uf900', 'STRASSE', 'straße', ' lead', 'trail ', 'a\tb\n', 'nul\x00in', '\ufeffbom',
-         '%41', 'a=b', '/x/y']
+         '%41', 'a=b', '/x/y',
+         # first / last characters that string clean-ups like to remove: NUL, white space, line ends, quotes, BOM at the end
+         'term\x00', '\x00', 'two\x00\x00', '\x00lead', 'line\n', 'crlf\r\n', '\n', ' ', '  both  ', '\tTab', '"quoted"', "'q'", 'bom\ufeff', 'nbsp\u00a0', '\u200bzw\u200b']
 
 
 def gen_bytes(rng, big_ok):
